@@ -1,7 +1,7 @@
 #!/bin/bash
 # seed_sweep.sh [ID-n ...]  — regression test of the machinery itself: applies every seeded defect
-# under /verif/seeded to /repo's working tree (never committed), runs the quick checks named in its
-# meta.json until one reports a violation, reverts, and prints a table. Exit 0 iff all are detected.
+# under /verif/seeded to /repo's working tree (never committed), runs the checks named in its
+# meta.json (quick tier unless the meta says detected_at_tier: thorough) until one reports a violation, reverts, and prints a table. Exit 0 iff all are detected.
 cd /verif
 if ! git -C /repo diff --quiet; then echo "refusing: /repo has uncommitted changes"; exit 2; fi
 LIST="$@"; [ -z "$LIST" ] && LIST=$(ls seeded)
@@ -10,10 +10,11 @@ for s in $LIST; do
   d=seeded/$s
   [ -f $d/patch.diff ] || continue
   CHECKS=$(python3 -c "import json;print(' '.join(json.load(open('$d/meta.json'))['detected_by_quick_checks']))")
+  TIER=$(python3 -c "import json;print(json.load(open('$d/meta.json')).get('detected_at_tier','quick'))")
   if ! git -C /repo apply /verif/$d/patch.diff 2>/dev/null; then echo "$s  PATCH-DOES-NOT-APPLY"; MISSED=$((MISSED+1)); continue; fi
   HIT=""
   for c in $CHECKS; do
-    out=$(./check $c quick 2>&1); rc=$?
+    out=$(./check $c $TIER 2>&1); rc=$?
     if [ $rc -eq 1 ] && echo "$out" | grep -q "^VIOLATION property=$c"; then HIT="$c: $(echo "$out" | grep -m1 'clause=' | sed 's/^ *//' | cut -c1-110)"; break; fi
     if [ $rc -ge 2 ]; then HIT=""; echo "$s  check $c exited $rc (machinery)"; fi
   done
